@@ -4,7 +4,7 @@
 use super::common::*;
 use crate::drive::pipeline::Sources;
 use crate::gen::mutate::*;
-use crate::gen::print::print_program;
+use crate::gen::print::{print_program, print_program_mutant};
 use crate::gen::wt::{generate, Cfg};
 use crate::util::{verif_root, Rng};
 use std::sync::OnceLock;
@@ -73,7 +73,7 @@ pub fn explore_case(seed: u64, salt: &str, idx: u64) -> ExploreCase {
             }
             ExploreCase {
                 cross_module_app: has_cross_module_application(&p),
-                sources: sources_of(&print_program(&p)),
+                sources: sources_of(&print_program_mutant(&p)),
                 origin: format!("ast-mutant:{}", what.join("+")),
             }
         }
